@@ -54,7 +54,8 @@ class C09(core.PropertyCheck):
     thorough_budget = 20000
     rule = ("exhaustive: every sequence of <=5 names from {x,x-1,x-2,x-1-1,X,'x 1'} as headings, as labels, as footnote refs "
             "(synthetic pages through the real Postprocessor); random: headings+collapsibles+labels mixed, spread over up to 3 include files "
-            "and 2 pages (page order exposes missing per-page reset); text: rst pages through parse_rst + Postprocessor. "
+            "and 2 pages (page order exposes missing per-page reset); text: rst pages through parse_rst + Postprocessor; repl: an include whose "
+            "`replacement` bodies carry labels / footnote references, referenced several times (block and inline) by the included file. "
             "non-trivial = at least two items sharing a base id or colliding with a generated suffix; distinct by case content")
     assumptions = [
         "Python's \\w / str.lower / str.strip are parameters of the model; the hypotheses the theorems need are checked over all 1,114,112 code points on every run",
@@ -101,12 +102,36 @@ class C09(core.PropertyCheck):
                 inc = [rng.choice([-1, -1, 0, 1, 2]) for _ in items]
                 pages.append({"items": items, "inc": inc, "dup": rng.random() < 0.35})
             yield {"kind": "rand", "pages": pages}
+        for _ in range(budget // 10):
+            # include parameters: `replacement` bodies that carry ids (labels, footnote references), referenced several times -
+            # as a block of their own and inline - by the included file; the same label may also sit on the page itself
+            reps = []
+            for nm in rng.sample(["caveat", "extra", "third"], rng.randint(1, 2)):
+                body = [rng.choice(["label", "label", "footref", "both", "plain"]) for _ in range(rng.randint(1, 2))]
+                reps.append({"name": nm, "body": body, "label": rng.choice(["rep-a", "rep-a", "rep-b"])})
+            uses = [[rng.choice([r["name"] for r in reps]), rng.choice(["block", "block", "inline"])] for _ in range(rng.randint(1, 4))]
+            yield {"kind": "repl", "reps": reps, "uses": uses, "page_label": rng.choice([None, "rep-a", "rep-b"]),
+                   "page_footrefs": rng.randint(0, 2), "twice": rng.random() < 0.3}
         for _ in range(budget // 5):
             tnames = [x for x in names if x.strip() and "\t" not in x and not x.startswith("-")]
             titles = [rng.choice(tnames) for _ in range(rng.randint(2, 6))]
             yield {"kind": "text", "titles": titles, "labels": [rng.choice(["a", "a", "b", "a-1"]) for _ in range(rng.randint(0, 4))]}
 
     def shrink_candidates(self, case):
+        if case["kind"] == "repl":
+            for i in range(len(case["uses"])):
+                yield {**case, "uses": case["uses"][:i] + case["uses"][i + 1:]}
+            for i in range(len(case["reps"])):
+                if len(case["reps"]) > 1:
+                    keep = case["reps"][:i] + case["reps"][i + 1:]
+                    yield {**case, "reps": keep, "uses": [u for u in case["uses"] if u[0] in {r["name"] for r in keep}]}
+            if case.get("page_label"):
+                yield {**case, "page_label": None}
+            if case.get("page_footrefs"):
+                yield {**case, "page_footrefs": 0}
+            if case.get("twice"):
+                yield {**case, "twice": False}
+            return
         if case["kind"] == "text":
             for i in range(len(case["titles"])):
                 yield {**case, "titles": case["titles"][:i] + case["titles"][i + 1:]}
@@ -127,6 +152,26 @@ class C09(core.PropertyCheck):
     # ---- implementation ----
     def build_pages(self, case):
         """returns (pages, [fileid of each page])"""
+        if case["kind"] == "repl":
+            idx = ["Guide", "=====", ""]
+            idx += ["Intro" + "".join(" [#]_" for _ in range(case["page_footrefs"])) + ".", ""]
+            if case.get("page_label"):
+                idx += [f".. _{case['page_label']}:", "", "Labelled paragraph on the page.", ""]
+            for _rep in range(2 if case.get("twice") else 1):
+                idx += [".. include:: /includes/steps.rst", ""]
+                for r in case["reps"]:
+                    idx += [f"   .. replacement:: {r['name']}", ""]
+                    for b in r["body"]:
+                        if b in ("label", "both"):
+                            idx += [f"      .. _{r['label']}:", ""]
+                        idx += ["      Mind the " + r["name"] + (" [#]_" if b in ("footref", "both") else "") + " here.", ""]
+            idx += ["Outro.", ""] + [f".. [#] note {i}" for i in range(12)] + [""]
+            inc = ["Shared steps.", ""]
+            for nm, how in case["uses"]:
+                inc += ([f"|{nm}|", ""] if how == "block" else [f"Inline use of |{nm}| in a sentence.", ""])
+            p1, _ = rst.parse("\n".join(idx) + "\n", "index.txt")
+            p2, _ = rst.parse("\n".join(inc) + "\n", "includes/steps.rst")
+            return [p1, p2], ["index.txt"]
         if case["kind"] == "text":
             lines = []
             for i, t in enumerate(case["titles"]):
@@ -184,6 +229,8 @@ class C09(core.PropertyCheck):
 
     def bases(self, case):
         """base ids per page in document order, computed from the *inputs* (sanitiser = real glue)"""
+        if case["kind"] == "repl":
+            return [{"headings": [], "targets": [], "footnotes": 0}]   # no model counterpart: the direct oracle (uniqueness) decides
         if case["kind"] == "text":
             hs = [heading_id(t.strip() or "z") for t in case["titles"]]
             ts = ["std-label-" + util.make_html5_id(l) for l in case["labels"][: len(case["titles"])]]
@@ -205,6 +252,8 @@ class C09(core.PropertyCheck):
 
     # ---- model ----
     def model_request(self, case):
+        if case["kind"] == "repl":
+            return None
         b = self.bases(case)
         words = sorted({c for pg in b for s in pg["headings"] + pg["targets"] for c in s})
         raw = []
@@ -256,6 +305,9 @@ class C09(core.PropertyCheck):
     def nontrivial_key(self, case, impl):
         if impl.get("exc"):
             return None
+        if case["kind"] == "repl":
+            pg = impl["pages"][0]
+            return core.json.dumps(case, sort_keys=True) if (len(pg["targets"]) >= 2 or len(pg["footnotes"]) >= 2) else None
         for b in impl["bases"]:
             for cat in ("headings", "targets"):
                 xs = b[cat]
@@ -276,6 +328,13 @@ class C09(core.PropertyCheck):
                     tags.append(f"suffixed:{cat}")
                 if any(re.search(r"-[2-9]$", g) and g != base for g, base in zip(p[cat], b[cat])):
                     tags.append(f"suffix>=2:{cat}")
+        if case["kind"] == "repl":
+            blocks = sum(1 for _, how in case["uses"] if how == "block")
+            tags.append("repl:block-uses>=2" if blocks >= 2 else "repl:block-uses<2")
+            if len(impl["pages"][0]["targets"]) >= 2:
+                tags.append("repl:targets>=2")
+            if len(impl["pages"][0]["footnotes"]) >= 2:
+                tags.append("repl:footrefs>=2")
         if case["kind"] == "rand" and any(x >= 0 for pg in case["pages"] for x in pg["inc"]):
             tags.append("via-include")
         return tags
@@ -299,7 +358,7 @@ def expand_dup(pg):
 
 def model_raw(case):
     raw = []
-    if case["kind"] != "text":
+    if case["kind"] not in ("text", "repl"):
         for pg in case["pages"]:
             for ty, name in pg["items"]:
                 if ty in "ct":
